@@ -792,11 +792,17 @@ def _perm(rng, n):
     return np.eye(n)[rng.permutation(n)]
 
 
-def softabs_inputs(ctx, rng):
-    """(tag, H, coeff) — random, exactly repeated, near repeated, ulp-gap."""
+def softabs_inputs(ctx, rng, escalate=False):
+    """(tag, H, coeff) — random, exactly repeated, near repeated, ulp-gap.  `escalate` (a broken C11S softabs_*
+    obligation): twice the random cases plus eigenvalues straddling the series / closed-form switch |coeff x| = 1e-3."""
     out = []
     coeffs = [0.5, 1.0, 1.5, 2.25, 4.0, 0.25, 8.0]
-    for _ in range(ctx.n(150, 1500)):
+    if escalate:
+        for c in coeffs:
+            for y in (0.5e-3, 0.99e-3, 1.01e-3, 2e-3, 5e-3, 0.99e-2, 1.01e-2, 5e-2, -0.99e-3, -1.01e-3):
+                out.append(("switch-eig", np.diag([y / c, 1.25, -0.75]), c))
+                out.append(("switch-eig", _HAD4 @ np.diag([y / c, -y / c, 2.0, y / c]) @ _HAD4.T, c))
+    for _ in range((2 if escalate else 1) * ctx.n(150, 1500)):
         n = int(rng.integers(1, 6))
         h = dy(rng, -2, 2, 8, (n, n))
         h = (h + h.T) / 2 + np.diag(dy(rng, -1, 1, 8, n))
@@ -869,7 +875,9 @@ def run(ctx: common.Ctx):
         "d log|x| = dx / x (logarithmic derivative of det stands for the gradient of log|det|)",
         "finite differences: 4th-order central, h = 2^-12, tolerance 2e-6 * max(1, |g|) on parameters with "
         "condition number < ~200",
-        "SoftAbs (tanh) is outside the Lean theorems (polynomial spectral functions only): finite differences only",
+        "SoftAbs: the C11 theorems are for polynomial spectral functions; the real x/tanh(alpha x) is tied at the source "
+        "level only (C11S softabs_*: extracted bodies = Daleckii-Krein forms with f, f' as data; two-branch softabs / "
+        "grad_softabs) and judged numerically by finite differences",
     ]
     # ---- corpus: minimised past failures, always replayed first -----------------------------------
     import json
@@ -985,7 +993,7 @@ def run(ctx: common.Ctx):
                     {"case": case},
                 )
     # ---- SoftAbs: direct oracle only -----------------------------------------------------------
-    run_softabs(ctx, rng)
+    run_softabs(ctx, rng, escalate=any("softabs" in t for t in broken_s))
     # ---- malformed requests must be refused ---------------------------------------------------
     bad = common.run_driver("C11", ["grad [1] sid 2 1 1", "grad [1,2] dense [[1,2],[3]] [[0,0],[0,0]]", "nonsense",
                                     "grad [1,2] dense [[1,2],[3,4]] [[0,0],[0,0]]", "grad [1] sid 1 0 1"])
@@ -1008,8 +1016,41 @@ def _count_options(ctx, rec):
             ctx.count(f"block-of:{b['cls']}")
 
 
-def run_softabs(ctx, rng):
+def softabs_branch_fails(coeff, y):
+    """Direct oracle on `softabs` / `grad_softabs` themselves just below the switch |coeff x| = 1e-3: the series
+    branch must agree with the closed forms x / tanh(coeff x) and 1 / tanh(coeff x) - coeff x / sinh(coeff x)^2
+    (whose float64 evaluation is accurate to ~1e-9 relative there) to 1e-7 relative."""
     from mici import matrices as mm
+
+    fails = []
+    with warnings.catch_warnings():
+        warnings.simplefilter("ignore")
+        with np.errstate(all="ignore"):
+            m = mm.SoftAbsRegularizedPositiveDefiniteMatrix(np.diag([1.0, 2.0]), coeff)
+            x = np.array([y / coeff])
+            want = {"softabs": x / np.tanh(x * coeff),
+                    "grad_softabs": 1.0 / np.tanh(coeff * x) - coeff * x / np.sinh(coeff * x) ** 2}
+            for nm, w in want.items():
+                got = np.asarray(getattr(m, nm)(x), dtype=float)
+                if got.shape != w.shape or not np.all(np.abs(got - w) <= 1e-7 * np.abs(w) + 1e-15):
+                    fails.append((f"SoftAbsRegularizedPositiveDefiniteMatrix.{nm} series branch",
+                                  f"{nm}({float(x[0])!r}) with coeff {coeff!r} is {got.tolist()!r}, closed form gives "
+                                  f"{w.tolist()!r}"))
+    return fails
+
+
+def run_softabs(ctx, rng, escalate=False):
+    from mici import matrices as mm
+
+    for coeff in (0.25, 0.5, 1.0, 2.25, 8.0):
+        for y in (0.999e-3, 0.9e-3, -0.999e-3):
+            ctx.count("softabs_branch_switch_checked")
+            try:
+                fails = softabs_branch_fails(coeff, y)
+            except Exception as e:  # noqa: BLE001
+                fails = [("SoftAbsRegularizedPositiveDefiniteMatrix.softabs raised", f"{type(e).__name__}: {e}")]
+            for sig, text in fails:
+                ctx.violation(sig, text, {"softabs_branch": {"coeff": coeff, "y": y}})
 
     # an exactly zero eigenvalue of the unregularised array is a regular point: x / tanh(coeff x) has a removable
     # singularity at 0 (value 1/coeff, derivative 0); the matrix and both gradients must be finite there
@@ -1029,7 +1070,7 @@ def run_softabs(ctx, rng):
                       {"case": {"family": "softabs:zero", "recipe": {"cls": "SoftAbsRegularizedPositiveDefiniteMatrix",
                                                                         "array": [[0.0, 0.0], [0.0, 0.0]], "coeff": 2.0},
                                 "v": [1.0, -2.0], "delta": [[0.25, 0.5], [0.5, -0.125]]}})
-    for tag, h, coeff in softabs_inputs(ctx, rng):
+    for tag, h, coeff in softabs_inputs(ctx, rng, escalate):
         n = h.shape[0]
         rec = {"cls": "SoftAbsRegularizedPositiveDefiniteMatrix", "array": h.tolist(), "coeff": coeff}
         case = {"family": "softabs:" + tag, "recipe": rec, "v": gen_vec(rng, n).tolist()}
@@ -1059,6 +1100,11 @@ def run_softabs(ctx, rng):
 
 
 def replay(ctx, obj):
+    if "softabs_branch" in obj:
+        fails = softabs_branch_fails(obj["softabs_branch"]["coeff"], obj["softabs_branch"]["y"])
+        for sig, text in fails:
+            print(f"  {sig}: {text}")
+        return bool(fails)
     case = obj["case"]
     fails, _info = oracle_case(case)
     for sig, text in fails:
@@ -1083,14 +1129,23 @@ LEVEL_TEXT = (
     "random directional derivative are compared with the driver's exact evaluation of the same Lean definitions in "
     "DualNumber Q (M*X = 1, Mh*Xh = 1 and, for n <= 4, the det identity are decided in the driver), and directly with "
     "4th-order finite differences of dense NumPy formulas (this also covers the real SoftAbs, incl. exactly repeated, "
-    "ulp-apart and near-repeated eigenvalues)."
+    "ulp-apart and near-repeated eigenvalues). Source-level tie of SoftAbs (Props/C11S, sEval over any ordered field, "
+    "spectral function f, derivative f', tanh, sinh as data): the extracted grad_log_abs_det evaluates to Q diag(f'(lam)/f(lam)) "
+    "Q^T (softabs_logdet_formula) and the extracted grad_quadratic_form_inv - including its two masked item assignments and "
+    "the test |la-lb| <= tol*max(|la+lb|,1) - to -Q((e e^T) o J)Q^T with J = f' at the midpoint on (near-)coincident pairs, "
+    "divided difference elsewhere (softabs_quad_formula; softabs_quad_formula_poly: for tol = 0 and polynomial f it is "
+    "literally the matrix of softabs_quad_partial); softabs / grad_softabs as extracted are the series branch for "
+    "|coeff x| < 1e-3 and the closed form otherwise (softabs_two_branch, grad_softabs_two_branch)."
 )
 LEVEL_NOTE = (
     "Trusted: Lean kernel, axioms {propext, Classical.choice, Quot.sound}; d log|x| = dx/x (the gradient of log|det| is "
     "stated as the logarithmic derivative of det); a/b modelled as a*b' with b*b' = 1; the inverse the code computes "
     "(Cholesky, triangular solves, Woodbury) is taken to be the inverse (that is C10). softabs_*_partial: tanh is not "
     "algebraic, so the real SoftAbs class (x/tanh(alpha x), its float coincidence threshold sqrt(eps)) is covered by finite "
-    "differences only; the model's j_mtx is proved equal to the divided-difference matrix for tolerance 0. Block diagonal is "
+    "differences only; the model's j_mtx is proved equal to the divided-difference matrix for tolerance 0. C11S softabs_*: "
+    "NumPy operator semantics (broadcasting, np.where, boolean-mask item assignment as np.where of the lifted right-hand "
+    "side) and the extractor's inlining of locals are trusted; NOT proved: that the series branches approximate the closed "
+    "forms and that grad_softabs is the derivative of softabs (numerical oracle only). Block diagonal is "
     "proved for two blocks (k blocks = iterated binary case, as the driver assembles it). Exactly zero and tiny eigenvalues of "
     "the unregularised SoftAbs array are regular points (softabs(0) = 1/coeff) and are judged like any other input. Float rounding is outside the theorems: inputs are "
     "dyadic with spectrum in [0.2, 40]; tolerances 1e-8 (exact model) and 2e-6 (finite differences); an error between the "
